@@ -265,6 +265,9 @@ class MidiInstrument(Instrument):
     def __init__(self, name=""):
         Instrument.__init__(self)
         self.name = name
+        # a list of its own: editing one instrument's names must not renumber
+        # the programs of the others
+        self.names = list(self.names)
 
 
 class MidiPercussionInstrument(Instrument):
